@@ -1,6 +1,7 @@
 import NmVerif.Index.Broadcast
 import NmVerif.Lemmas.Broadcast
 import NmVerif.Index.BroadcastExpr
+import NmVerif.Index.BroadcastKinds
 /-
   C06 — Broadcasting follows NumPy's rules and is symmetric, associative, idempotent.
   Only property statements (+ non-vacuity examples) live here; lemmas are in Lemmas/Broadcast.lean.
@@ -588,6 +589,86 @@ theorem broadcastTo_inBounds (src dst : Shape) (v : IxView) (h : broadcastToView
   unfold specBroadcastIdx
   rw [this, List.drop_left]
   exact specAligned_inShape hfs hin
+
+/-! ### zero extents (outside the property's quantifier, inside "NumPy's rules") -/
+
+/-- **all extents, zero included**: unless some axis pairs a 0 with a 1, `broadcast_shape` is NumPy's rule -/
+theorem broadcast2_eq_numpy_of_not_zeroWithOne (a b : Shape) (h : ZeroWithOne a b = false) :
+    broadcastShape2 a b = npBroadcast2 a b := by
+  unfold broadcastShape2 npBroadcast2
+  rw [bcRev_eq_npRev _ _ h]
+
+/-- positive shapes never are in that class -/
+theorem not_zeroWithOne_of_pos (a b : Shape) (ha : Pos a) (hb : Pos b) : ZeroWithOne a b = false := by
+  unfold ZeroWithOne
+  have key : ∀ (x y : List Nat), (∀ v ∈ x, 0 < v) → (∀ v ∈ y, 0 < v) → zeroOneRev x y = false := by
+    intro x
+    induction x with
+    | nil => intro y _ _; simp [zeroOneRev]
+    | cons v vs ih =>
+      intro y hx hy
+      cases y with
+      | nil => simp [zeroOneRev]
+      | cons w ws =>
+        have hv := hx v (by simp)
+        have hw := hy w (by simp)
+        simp only [zeroOneRev, Bool.or_eq_false_iff, Bool.and_eq_false_imp, beq_iff_eq]
+        refine ⟨⟨fun e => by omega, fun e => ?_⟩, ih ws (fun u hu => hx u (by simp [hu])) (fun u hu => hy u (by simp [hu]))⟩
+        simp only [beq_eq_false_iff_ne, ne_eq]
+        omega
+  exact key _ _ (fun v hv => ha v (List.mem_reverse.1 hv)) (fun v hv => hb v (List.mem_reverse.1 hv))
+
+/-- the unchanged code breaks NumPy's rule on a zero extent paired with 1 (known finding
+    C06.broadcast-zero-extent-with-one; replayed on the real headers: `broadcast_shape((0,0),(1,0))` = (1,0)) -/
+theorem broadcast_zero_extent_counterexample :
+    broadcastShape2 [0, 0] [1, 0] = some [1, 0] ∧ npBroadcast2 [0, 0] [1, 0] = some [0, 0] ∧ ZeroWithOne [0, 0] [1, 0] = true := by decide
+
+example : ZeroWithOne [2, 0] [0] = false := by decide
+example : broadcastShape2 [2, 0] [0] = some [2, 0] ∧ npBroadcast2 [2, 0] [0] = some [2, 0] := by decide
+example : ZeroWithOne [2, 0] [3, 1] = true := by decide
+example : Pos [2, 1, 3] ∧ Pos [4, 1] := by decide
+
+/-! ### the None source (shape of a number) with a clipped target: the one place found where the container kind of
+a shape changes a result of the broadcasting index functions (known finding C06.sbt-none-clipped-target) -/
+
+/-- as long as every extent fits the bound of the LAST element of the clipped target, the None overload of
+    `shape_broadcast_to` returns the target unchanged -/
+theorem sbtNoneClipped_eq_of_le (bounds vals : List Nat) (m : Nat) (hm : bounds.getLast? = some m)
+    (h : ∀ v ∈ vals, v ≤ m) : sbtNoneClipped bounds vals = vals := by
+  unfold sbtNoneClipped
+  rw [hm]
+  simp only
+  conv => rhs; rw [← List.map_id vals]
+  apply List.map_congr_left
+  intro v hv
+  have := h v hv
+  simp only [id]
+  omega
+
+/-- … and only then: an extent above the last bound comes back clamped -/
+theorem sbtNoneClipped_eq_iff (bounds vals : List Nat) (m : Nat) (hm : bounds.getLast? = some m) :
+    sbtNoneClipped bounds vals = vals ↔ ∀ v ∈ vals, v ≤ m := by
+  constructor
+  · intro h v hv
+    unfold sbtNoneClipped at h
+    rw [hm] at h
+    simp only at h
+    have h2 : (vals.map (fun v => min v m)).map id = vals.map id := by rw [h]
+    rw [List.map_map] at h2
+    have := (List.map_inj_left.1 h2) v hv
+    simp only [Function.comp, id] at this
+    omega
+  · exact sbtNoneClipped_eq_of_le bounds vals m hm
+
+/-- the unchanged code breaks the property here: the target `"3:[5]","2:[2]"` (extents (3,2), bounds (5,2)) comes
+    back as (2,2), while `shape_broadcast_to` of the empty shape to (3,2) is (3,2) for every other container kind.
+    Replayed on the real headers (known/C06.json, witness `k6 … op=sbt shapes=[];3,2 kinds=none/cl salt=0`). -/
+theorem sbtNoneClipped_counterexample :
+    sbtNoneClipped [5, 2] [3, 2] = [2, 2] ∧ (shapeBroadcastTo [] [3, 2]).map (·.1) = some [3, 2] := by decide
+
+example : sbtNoneClipped [3, 3] [3, 2] = [3, 2] := by decide
+example : ([5, 2] : List Nat).getLast? = some 2 := by decide
+example : ¬ ∀ v ∈ ([3, 2] : List Nat), v ≤ 2 := by decide
 
 /-! ### broadcast_arrays -/
 
